@@ -1,14 +1,17 @@
 /-
-Driver for the `own` stream (C15): after every operation the whole heap is
-printed — every live handle with its alias class, frozen flag and content — so
-that any write to a cell the model says is not written shows up as a diff.
+Driver for the `own` stream (C15): after every operation the whole object table is
+printed — every live handle of the three layers (sketches, signatures `s…`, collection
+views `v…`) with its alias class, frozen flag and content, and for a view its own state
+(member references / selection dict / row identities / picklists) plus what
+`signatures()` yields — so that any write to a cell the model says is not written shows
+up as a diff.
 -/
-import SmVerif.Model.Ownership
+import SmVerif.Model.OwnObj
 import SmVerif.Model.Proto
 
 namespace Sm.DriverOwn
 
-open Sm.Proto Sm.Own
+open Sm.Proto Sm.Own Sm.Obj
 
 def showCell (c : Cell) : String :=
   let ab := match c.val.abunds with
@@ -17,23 +20,118 @@ def showCell (c : Cell) : String :=
   s!"{b2s c.frozen}:{c.val.num}:{c.val.maxHash}:{joinNats c.val.mins}:{ab}"
 
 /-- handles sorted ascending; alias class = smallest handle bound to the same cell -/
-def showHeap (hp : Heap) : String :=
+def showHeap (hp : Heap) : List String :=
   let hs := (hp.handles.map Prod.fst).mergeSort (· ≤ ·)
   let cls (h : Nat) : Nat :=
     match hp.cid h with
     | some c => ((hs.filter (fun g => hp.cid g = some c)).head?).getD h
     | none => h
-  " ".intercalate (hs.map fun h =>
+  hs.map fun h =>
     match hp.cell h with
     | some c => s!"{h}@{cls h}={showCell c}"
-    | none => s!"{h}@?")
+    | none => s!"{h}@?"
+
+def dash (s : String) : String := if s == "" then "-" else s
+
+def showSigOut (o : SigOut) : String :=
+  let m := o.2.mh
+  let ab := match m.abunds with
+    | some ab => joinNats ab
+    | none => "-"
+  s!"{b2s o.1}:{dash o.2.name}:{dash o.2.filename}:{m.num}:{m.maxHash}:{joinNats m.mins}:{ab}"
+
+def sortedHandles {α : Type} (t : Tab α) : List Nat := (t.handles.map Prod.fst).mergeSort (· ≤ ·)
+
+/-- smallest handle bound to cell `c` -/
+def clsOf {α : Type} (t : Tab α) (c : Nat) : Option Nat :=
+  ((sortedHandles t).filter (fun g => t.cid g = some c)).head?
+
+def refName {α : Type} (pre : String) (t : Tab α) (c : Nat) : String :=
+  match clsOf t c with
+  | some h => s!"{pre}{h}"
+  | none => s!"{pre}?"
+
+def selName (k : Nat) : String :=
+  match k with
+  | 0 => "ksize" | 1 => "moltype" | 2 => "scaled" | 3 => "num" | 4 => "abund" | _ => "containment"
+
+def strLe (a b : String) : Bool := !(b < a)
+
+def showSel : Option Sel → String
+  | none => "-"
+  | some [] => "{}"
+  | some d =>
+    let items := d.mergeSort (fun a b => a.1 ≤ b.1)
+    ",".intercalate (items.map fun (k, v) =>
+      s!"{k}:" ++ (match v with
+        | some n => toString n
+        | none => "N"))
+
+def showSigs (w : World) (vc : ViewCell) : String :=
+  match viewSigs w vc with
+  | none => "!ValueError"
+  | some l => "[" ++ "/".intercalate ((l.map showSigOut).mergeSort strLe) ++ "]"
+
+/-- canonical row numbers: rows in order of first appearance, views by ascending handle -/
+def rowNumbering (w : World) : List (Nat × Nat) :=
+  let all := (sortedHandles w.views).flatMap (fun h =>
+    match w.views.cell h with
+    | some vc => vc.rows
+    | none => [])
+  let uniq := all.foldl (fun (acc : List Nat) r => if acc.contains r then acc else acc ++ [r]) []
+  uniq.zipIdx
+
+def showRow (w : World) (num : List (Nat × Nat)) (r : Nat) : String :=
+  let n := match num.lookup r with
+    | some k => toString k
+    | none => "?"
+  match w.rows[r]? with
+  | none => s!"R{n}(?)"
+  | some row =>
+    let m := row.snap.mh
+    let sref := match row.sig with
+      | some c => refName "s" w.sigs c
+      | none => "-"
+    let nkeys := if row.hasSigKey then 12 else 11
+    s!"R{n}({nkeys}.{dash row.snap.name}.{dash row.snap.filename}.{m.mins.length}.{b2s m.trackAbundance}.{sref})"
+
+def kindName : VKind → String
+  | .linear => "linear" | .lazy => "lazy" | .zipnm => "zipnm" | .zipm => "zipm" | .multi => "multi"
+  | .standalone => "standalone" | .sbt => "sbt" | .lca => "lca"
+
+/-- a picklist is a SET of names: printed sorted, without repetitions -/
+def showPicks (ps : List (List String)) : String :=
+  "".intercalate (ps.map fun p => "(" ++ "+".intercalate ((p.mergeSort strLe).eraseDups) ++ ")")
+
+def showView (w : World) (num : List (Nat × Nat)) (vc : ViewCell) : String :=
+  let own := match vc.kind with
+    | .linear => "m=" ++ ",".intercalate (vc.sigs.map (refName "s" w.sigs))
+    | .sbt => "m=" ++ ",".intercalate ((vc.sigs.map (refName "s" w.sigs)).mergeSort strLe) ++ ";p=" ++ showPicks vc.picks
+    | .lazy => "db=" ++ refName "v" w.views vc.db ++ ";sel=" ++ showSel vc.sel
+    | .zipnm => "sel=" ++ showSel vc.sel
+    | .zipm | .multi | .standalone => "rows=" ++ ",".intercalate (vc.rows.map (showRow w num))
+    | .lca => s!"n={vc.vals.length};p=" ++ showPicks vc.picks
+  kindName vc.kind ++ ";" ++ own ++ ";" ++ showSigs w vc
+
+def showWorld (w : World) : String :=
+  let mhs := showHeap w.heap
+  let ss := (sortedHandles w.sigs).map fun h =>
+    match w.sigs.cid h, w.sigs.cell h with
+    | some c, some sc => s!"s{h}@{(clsOf w.sigs c).getD h}=" ++ showSigOut (sc.frozen, sc.val)
+    | _, _ => s!"s{h}@?"
+  let num := rowNumbering w
+  let vs := (sortedHandles w.views).map fun h =>
+    match w.views.cid h, w.views.cell h with
+    | some c, some vc => s!"v{h}@{(clsOf w.views c).getD h}=" ++ showView w num vc
+    | _, _ => s!"v{h}@?"
+  " ".intercalate (mhs ++ ss ++ vs)
 
 def showRes : Res → String
   | .ok => "ok"
   | .err n => "err " ++ n
   | .bad => "bad-op"
 
-def parse (line : String) : Option Op :=
+def parseMh (line : String) : Option Own.Op :=
   match words line with
   | ["new", r, num, scaled, track] => do
     pure (.new (← nat? r) (← nat? num) (← nat? scaled) (← bool? track))
@@ -57,16 +155,85 @@ def parse (line : String) : Option Op :=
   | "ro" :: name :: hs => do pure (.readOnly name (← nats? hs))
   | _ => none
 
-def stepLine (hp : Heap) (line : String) : Heap × String :=
+/-- a name token: `-` (empty) or lower-case letters / digits -/
+def name? (s : String) : Option String :=
+  if s == "-" then some ""
+  else if s != "" && s.toList.all (fun c => c.isLower || c.isDigit) then some s
+  else none
+
+/-- a sequence token: upper-case ASCII letters -/
+def seq? (s : String) : Option (List Nat) :=
+  if s != "" && s.toList.all (fun c => c.isUpper) then some (s.toList.map (·.toNat)) else none
+
+def kw1? (s : String) : Option (Nat × Option Nat) :=
+  match s.splitOn "=" with
+  | [k, v] =>
+    let val : Option (Option Nat) := if v == "N" then some none else (v.toNat?).map some
+    match val with
+    | none => none
+    | some x =>
+      let small (bound : Nat) : Bool := match x with
+        | some n => n < bound
+        | none => true
+      match k with
+      | "ksize" => some (0, x)
+      | "moltype" => if small 4 then some (1, x) else none
+      | "scaled" => some (2, x)
+      | "num" => some (3, x)
+      | "abund" => if small 2 then some (4, x) else none
+      | "containment" => if small 2 then some (5, x) else none
+      | _ => none
+  | _ => none
+
+def kws? (ws : List String) : Option Sel := do
+  let l ← ws.mapM kw1?
+  let ks := l.map Prod.fst
+  if ks.eraseDups.length == ks.length then pure l else none
+
+def parse (line : String) : Option Obj.Op :=
   match words line with
-  | "#" :: _ => (Heap.empty, "#")
+  | ["snew", r, h, nm, fn] => do pure (.sNew (← nat? r) (← nat? h) (← name? nm) (← name? fn))
+  | ["smh", r, s] => do pure (.sMinhash (← nat? r) (← nat? s))
+  | ["ssetmh", s, h] => do pure (.sSetMh (← nat? s) (← nat? h))
+  | ["sname", s, x] => do pure (.sSetName (← nat? s) (← name? x))
+  | ["sfile", s, x] => do pure (.sSetFilename (← nat? s) (← name? x))
+  | ["saddseq", s, force, sq] => do pure (.sAddSeq (← nat? s) (← seq? sq) (← bool? force))
+  | ["saddprot", s, sq] => do pure (.sAddProt (← nat? s) (← seq? sq))
+  | ["ssetstate", s, h, nm, fn] => do pure (.sSetState (← nat? s) (← nat? h) (← name? nm) (← name? fn))
+  | ["sintofrozen", s] => do pure (.sIntoFrozen (← nat? s))
+  | ["stomut", r, s] => do pure (.sToMutable (← nat? r) (← nat? s))
+  | ["stofrozen", r, s] => do pure (.sToFrozen (← nat? r) (← nat? s))
+  | ["scopy", r, s] => do pure (.sCopy (← nat? r) (← nat? s))
+  | ["spickle", r, s] => do pure (.sPickle (← nat? r) (← nat? s))
+  | ["supdflat", r, s] => do pure (.sUpdateFlat (← nat? r) (← nat? s))
+  | ["supdname", r, s, x] => do pure (.sUpdateName (← nat? r) (← nat? s) (← name? x))
+  | ["sgatherinit", r, s] => do pure (.sGatherInit (← nat? r) (← nat? s))
+  | "scg" :: r :: s :: ds => do pure (.sCounterGather (← nat? r) (← nat? s) (← nats? ds))
+  | "sro" :: name :: ss => do pure (.sRead name (← nats? ss))
+  | "vlinear" :: r :: ss => do pure (.vLinear (← nat? r) (← nats? ss))
+  | ["vlazy", r, v] => do pure (.vLazy (← nat? r) (← nat? v))
+  | "vzip" :: r :: m :: ss => do pure (.vZip (← nat? r) (← bool? m) (← nats? ss))
+  | "vmulti" :: r :: vs => do pure (.vMulti (← nat? r) (← nats? vs))
+  | "vstandalone" :: r :: ss => do pure (.vStandalone (← nat? r) (← nats? ss))
+  | "vsbt" :: r :: ss => do pure (.vSbt (← nat? r) (← nats? ss))
+  | "vlca" :: r :: ss => do pure (.vLca (← nat? r) (← nats? ss))
+  | ["vinsert", v, s] => do pure (.vInsert (← nat? v) (← nat? s))
+  | "vsel" :: r :: v :: kws => do pure (.vSelect (← nat? r) (← nat? v) (← kws? kws))
+  | "vselpick" :: r :: v :: names => do pure (.vSelectPick (← nat? r) (← nat? v) (← names.mapM name?))
+  | ["vget", r, v, i] => do pure (.vGet (← nat? r) (← nat? v) (← nat? i))
+  | "vro" :: name :: v :: qs => do pure (.vRead name (← nat? v) (← nats? qs))
+  | _ => (parseMh line).map .mh
+
+def stepLine (w : World) (line : String) : World × String :=
+  match words line with
+  | "#" :: _ => (World.empty, "#")
   | _ =>
     match parse line with
-    | none => (hp, "bad-op")
+    | none => (w, "bad-op")
     | some op =>
-      let (hp', r) := step hp op
+      let (w', r) := Obj.step w op
       match r with
-      | .bad => (hp', "bad-op")
-      | _ => (hp', showRes r ++ " | " ++ showHeap hp')
+      | .bad => (w', "bad-op")
+      | _ => (w', showRes r ++ " | " ++ showWorld w')
 
 end Sm.DriverOwn
